@@ -246,6 +246,30 @@ func checkC17(c *Ctx, w *World) {
 		if gcall != nil {
 			eq, wit = cs.Equiv(cs.Reach(st), and(cs.Reach(gcall), cs.Atom("zero:"+a.Field)))
 		}
+		// … and the test is made on every way through the function on which the section exists (three independent tests,
+		// not alternatives of one another): no return is reachable with the section present and this getter not consulted;
+		// a section created because there was none may instead be built with this default in place
+		if gcall != nil && eq {
+			freshDefault := false
+			for _, b := range pl.ai.ByFn[ic] {
+				if b.Field == a.Field && b.What == "store" && freshAt(b.Base, b.Instr) {
+					if fv, isK := constInt(b.Instr.(*ssa.Store).Val); isK && fv == wv {
+						freshDefault = true
+					}
+				}
+			}
+			for _, r := range returnsOf(ic) {
+				skipped := and(cs.Reach(r), cs.Not(cs.Reach(gcall)))
+				if !freshDefault || !cs.Seen("poolNil") {
+					// nothing else can supply the default: the test is on every way
+				} else {
+					skipped = and(skipped, cs.Not(cs.Atom("poolNil")))
+				}
+				if cs.Satisfiable(skipped) {
+					eq, wit = false, "the function can return without having tested this field: "+cs.assignment(skipped)
+				}
+			}
+		}
 		c.check(same && eq, "C17.defaults", construct, p.ipos(st), fmt.Sprintf("%s ← %d ⇔ its own getter returned 0, on the same message", lastDot(a.Field), wv), "default is applied under a condition other than 'this field is zero': "+wit)
 		cpObj = a.Base
 	}
@@ -282,6 +306,7 @@ func checkC17(c *Ctx, w *World) {
 	aliasWhy := ""
 	// every store to gb.cfg is a fresh GCPBalancerConfig whose ApiConfig is fresh or a clone of the parameter's
 	nCfgStores := 0
+	apiOrigins := map[ssa.Value]bool{} // what the message inside the stored wrapper can be
 	for _, a := range pl.ai.ByFn[ic] {
 		if a.Field != "gcpBalancer.cfg" || a.What != "store" {
 			continue
@@ -317,6 +342,7 @@ func checkC17(c *Ctx, w *World) {
 					okClone = false
 				}
 				for _, o := range os {
+					apiOrigins[o.Val] = true
 					if fresh, isFresh := o.Val.(*ssa.Alloc); isFresh && o.Kind == "alloc" {
 						// a hand-built message: none of its fields may carry a pointer into the caller's object
 						if bad := taintedFieldOfFresh(fresh, cfgParam, 0); bad != "" {
@@ -334,12 +360,35 @@ func checkC17(c *Ctx, w *World) {
 		}
 	}
 	// the defaulted object is GetChannelPool(<gb.cfg>.ApiConfig), i.e. inside the balancer's own copy
+	// (or of the message that is then wrapped and stored: the same origins as the stored wrapper's ApiConfig; a section
+	// created because there was none is a fresh message — "ChannelPool created only when absent" above)
 	if cpObj != nil {
-		call, isC := staticCallNamed(cpObj, ".GetChannelPool")
-		if !isC {
+		os := origins(cpObj)
+		if len(os) == 0 {
 			okClone = false
-		} else if f, base, ok := loadedField(call.Call.Args[0]); !ok || f != "GCPBalancerConfig.ApiConfig" || !isLoadOf(base, "gcpBalancer.cfg") {
-			okClone = false
+		}
+		for _, o := range os {
+			if _, isFresh := o.Val.(*ssa.Alloc); isFresh && o.Kind == "alloc" {
+				continue
+			}
+			call, isC := staticCallNamed(o.Val, ".GetChannelPool")
+			if !isC {
+				okClone = false
+				continue
+			}
+			if f, base, ok := loadedField(call.Call.Args[0]); ok && f == "GCPBalancerConfig.ApiConfig" && isLoadOf(base, "gcpBalancer.cfg") {
+				continue
+			}
+			aos := origins(call.Call.Args[0])
+			if len(aos) == 0 {
+				okClone = false
+			}
+			for _, ao := range aos {
+				if !apiOrigins[ao.Val] {
+					okClone = false
+					aliasWhy = "defaults are stored into " + vstr(ao.Val) + ", which is not the message the balancer keeps"
+				}
+			}
 		}
 	}
 	// no balancer field receives a pointer that originates from the parameter without passing through Clone
@@ -408,7 +457,10 @@ func checkC17(c *Ctx, w *World) {
 	var table *ssa.MakeMap
 	for _, a := range pl.ai.ByFn[ic] {
 		if a.Field == "gcpBalancer.methodCfg" && a.What == "store" {
-			table, _ = a.Instr.(*ssa.Store).Val.(*ssa.MakeMap)
+			// (the map may reach the field through the result of an inlined helper: one origin, the make)
+			if os := origins(a.Instr.(*ssa.Store).Val); len(os) == 1 {
+				table, _ = os[0].Val.(*ssa.MakeMap)
+			}
 		}
 	}
 	okTab := table != nil
@@ -443,7 +495,9 @@ func checkC17(c *Ctx, w *World) {
 				}
 			}
 			tcs := newCondSpace(ic, recOf(eqAtom("namesNil", isVal(names), isNil), eqAtom("affNil", isVal(aff), isNil)), "namesNil", "affNil")
-			imp, _ := tcs.Implies(tcs.Reach(mu), tcs.And(tcs.Not(tcs.Atom("namesNil")), tcs.Not(tcs.Atom("affNil"))))
+			// (the key is an element of the name list, so the store is inside a scan of it: a nil list has no elements and
+			// needs no test of its own)
+			imp, _ := tcs.Implies(tcs.Reach(mu), tcs.Not(tcs.Atom("affNil")))
 			if !imp || !entryOK {
 				okTab = false
 			}
